@@ -30,6 +30,19 @@ static int verdict(KSI_CTX *ctx, const unsigned char *raw, size_t n) {
 	if (!(r == KSI_OK && res && (int)res->finalResult.resultCode * 100 + (int)res->finalResult.errorCode == out)) out = 3000;
 	KSI_PolicyVerificationResult_free(res);
 	{ KSI_HashChainLinkIdentityList *il = NULL; if (KSI_Signature_getAggregationHashChainIdentity(s, &il) == KSI_OK) KSI_HashChainLinkIdentityList_free(il); }
+	/* byte-exact re-serialization of the object and of a clone, while the other threads do the same with their objects */
+	{ unsigned char *b = NULL; size_t bl = 0; KSI_Signature *cl = NULL;
+	  if (KSI_Signature_serialize(s, &b, &bl) != KSI_OK || bl != n || memcmp(b, raw, n)) out = 4000; KSI_free(b); b = NULL;
+	  if (KSI_Signature_clone(s, &cl) != KSI_OK || KSI_Signature_serialize(cl, &b, &bl) != KSI_OK || bl != n || memcmp(b, raw, n)) out = 4001; KSI_free(b); KSI_Signature_free(cl); }
+	/* helpers with formatting / lookup tables: publication string round trip, hash of the signature bytes rendered as text */
+	{ KSI_DataHash *h = NULL; KSI_PublicationData *pd = NULL, *pd2 = NULL; KSI_Integer *t = NULL; char *str = NULL, buf1[200], buf2[200]; KSI_DataHash *h2 = NULL; KSI_Integer *t2 = NULL;
+	  if (KSI_DataHash_create(ctx, raw, n, KSI_HASHALG_SHA2_256, &h) == KSI_OK && KSI_PublicationData_new(ctx, &pd) == KSI_OK && KSI_Integer_new(ctx, 1400000000u + (unsigned)n, &t) == KSI_OK) {
+		KSI_PublicationData_setTime(pd, t); t = NULL; KSI_PublicationData_setImprint(pd, h); KSI_DataHash_toString(h, buf1, sizeof buf1); h = NULL;
+		if (KSI_PublicationData_toBase32(pd, &str) != KSI_OK || KSI_PublicationData_fromBase32(ctx, str, &pd2) != KSI_OK) out = 4002;
+		else { KSI_PublicationData_getImprint(pd2, &h2); KSI_PublicationData_getTime(pd2, &t2); KSI_DataHash_toString(h2, buf2, sizeof buf2);
+			if (strcmp(buf1, buf2) || KSI_Integer_getUInt64(t2) != 1400000000u + (unsigned)n) out = 4003; }
+	  }
+	  KSI_free(str); KSI_DataHash_free(h); KSI_Integer_free(t); KSI_PublicationData_free(pd); KSI_PublicationData_free(pd2); }
 	vc.signature = NULL; KSI_VerificationContext_clean(&vc);
 	KSI_Signature_free(s);
 	return out;
